@@ -71,20 +71,7 @@ Corollary board_rows_spec b fifo : board_rows b fifo = Ok (rows_spec b None fifo
 Proof. apply chunks_rows_spec. Qed.
 
 (* ---------- one row per timestamp entry, in order, with the right board / channel / edge ---------- *)
-Fixpoint ts_keys (b : N) (l : list entry) : list (N * N * bool) :=
-  match l with
-  | [] => []
-  | TS ch tr _ :: t => (b, ch, negb tr) :: ts_keys b t
-  | MK _ _ :: t => ts_keys b t
-  end.
-Definition row_key (r : row) : N * N * bool := (r_board r, r_channel r, r_leading r).
 
-Fixpoint count_ts (l : list entry) : nat :=
-  match l with
-  | [] => O
-  | TS _ _ _ :: t => S (count_ts t)
-  | MK _ _ :: t => count_ts t
-  end.
 
 Lemma rows_spec_keys b : forall l previous, map row_key (rows_spec b previous l) = ts_keys b l.
 Proof.
@@ -290,8 +277,6 @@ Qed.
 (* ================================================================================================
    4. all boards; the whole program
    ================================================================================================ *)
-Definition rows_of_fifos (fs : list (N * list entry)) : list row :=
-  flat_map (fun bf => rows_spec (fst bf) None (snd bf)) fs.
 
 Lemma all_rows_spec : forall fs, all_rows fs = Ok (rows_of_fifos fs).
 Proof.
@@ -526,12 +511,6 @@ Qed.
    ================================================================================================ *)
 From Coq Require Import Sorted.
 
-Fixpoint bt_lookup (m : buffers) (b : N) : option (list N) :=
-  match m with
-  | [] => None
-  | (b', buf) :: m' => if b =? b' then Some buf else bt_lookup m' b
-  end.
-Definition keys (m : buffers) : list N := map fst m.
 Definition sorted (m : buffers) : Prop := StronglySorted N.lt (keys m).
 
 Lemma bt_extend_lb x : forall m b d, Forall (N.lt x) (keys m) -> x < b -> Forall (N.lt x) (keys (bt_extend m b d)).
@@ -665,8 +644,6 @@ Proof. apply (cb_split_many_lemma (pieces_of b pieces) []). reflexivity. Qed.
 (* ================================================================================================
    9. the whole program on hardware streams of several boards, under any cut pattern
    ================================================================================================ *)
-Definition hw_pieces (boards : list (N * list hw_event)) : buffers :=
-  map (fun be => (fst be, hw_stream (snd be))) boards.
 
 Lemma hw_program_err : forall boards k, hw_program boards = Err k -> k = E_NO_EPOCH0.
 Proof.
@@ -727,10 +704,6 @@ Proof.
 Qed.
 
 (* ---------- the specification rows, edge by edge ---------- *)
-Definition row_matches (b : N) (e : hw_edge) (r : row) : Prop :=
-  r_board r = b /\ r_channel r = he_ch e /\ r_leading r = negb (he_tr e) /\
-  (forall t, r_time r = Some t -> t = true_time (he_T e)) /\
-  (r_time r = None <-> ~ (he_later e = true /\ in_window e)).
 
 Lemma hw_rows_edges b : forall evs k, Forall2 (row_matches b) (hw_edges_from k evs) (hw_rows_from b k evs).
 Proof.
